@@ -42,6 +42,7 @@ Require Import OV.Graph.Syntax OV.Graph.Sem OV.Graph.Names OV.Graph.SemProofs OV
 Require Import OV.Opt.Fold OV.Opt.SemLemmas OV.Opt.FoldProofs OV.Opt.FoldNested OV.Opt.FoldTheorems.
 Require Import OV.Opt.Dce OV.Opt.DceProofs OV.Opt.Cse OV.Opt.CseProofs OV.Opt.Use OV.Opt.UseProofs OV.Opt.Inits OV.Opt.InitsProofs OV.Opt.CseMoreProofs.
 Require Import OV.Opt.Pipeline OV.Opt.PipelineProofs OV.Gen.OptPipeline OV.Opt.PipelineShape OV.Gen.OptWiring OV.Opt.WiringShape.
+Require OV.Opt.Stages OV.Opt.StagesProofs OV.Opt.RuleBridge OV.Opt.OptimizeIrProofs OV.Rewrite.Apply OV.Rewrite.NameFix.
 Import ListNotations.
 Local Open Scope list_scope.
 Local Open Scope string_scope.
@@ -377,3 +378,86 @@ Print Assumptions C03_optimize_ir_with_initializers_sound_partial.
 Theorem C03_source_option_wiring : forallb row_ok wiring && defaults_ok = true.
 Proof. exact source_option_wiring_ok. Qed.
 Print Assumptions C03_source_option_wiring.
+
+(* ==== optimize_ir with the stages LINKED to the theorems of the properties that own them (Opt/StagesProofs.v, Opt/RuleBridge.v,
+   Opt/OptimizeIrProofs.v).  Names are qualified: OV.Rewrite.Apply redefines `app`, `disjointb`, ... *)
+
+(* FoldConstantsPass as a stage: Opt/Fold.v fold_graph started from the state that knows the table's values; the only hypotheses
+   are the oracles (reference evaluator = runtime kernel ...) and pe_ok (op-specific partial evaluators) *)
+Theorem C03_fold_stage_sound : forall V sem truth trip of_nat of_bool limit tok_val ref_eval const_val attr_of_val v_dtype v_dims v_ints v_tensor pe,
+  oracles V sem truth ref_eval const_val attr_of_val v_dtype v_ints -> pe_ok V sem truth trip of_nat of_bool limit pe ->
+  forall cfg depth fuel f,
+    istage_sound V sem truth trip of_nat of_bool limit tok_val
+      (StagesProofs.i_fold V tok_val ref_eval const_val attr_of_val v_dtype v_dims v_ints v_tensor pe cfg depth fuel f).
+Proof. exact StagesProofs.i_fold_sound. Qed.
+Print Assumptions C03_fold_stage_sound.
+
+(* RewritePass as a stage: C07's node iteration over the rule list, every proposal guarded by C07's executable side conditions;
+   the only hypothesis is rule_sound for every rule = the matched segment is interchangeable with its replacement *)
+Theorem C03_rewrite_stage_sound : forall V sem truth trip of_nat of_bool limit tok_val fuel rules f,
+  Forall (StagesProofs.rule_sound V sem truth trip of_nat of_bool limit) rules ->
+  istage_sound V sem truth trip of_nat of_bool limit tok_val (StagesProofs.i_rewrite fuel rules f).
+Proof. exact StagesProofs.i_rewrite_sound. Qed.
+Print Assumptions C03_rewrite_stage_sound.
+
+(* the bridge C05 -> rule_sound, three families (kernels = the family's element semantics on flat integer tensors) *)
+Theorem C03_rule_bridge_relu_relu : forall sem truth trip of_nat of_bool limit,
+  (forall attrs v, sem "" "Relu" attrs [Some v] = Some [map OV.Rules.Clip.relu v]) ->
+  StagesProofs.rule_sound (list Z) sem truth trip of_nat of_bool limit (RuleBridge.two_rule RuleBridge.relurelu).
+Proof. exact RuleBridge.relurelu_rule_sound. Qed.
+Print Assumptions C03_rule_bridge_relu_relu.
+
+Theorem C03_rule_bridge_dropout_inference : forall sem truth trip of_nat of_bool limit zero mul scale_of ratio0 mask0,
+  (forall attrs v, sem "" "Dropout" attrs [Some v] = Some [OV.Rules.Dropout.dropout Z zero mul scale_of false ratio0 mask0 v]) ->
+  (forall attrs v, sem "" "Identity" attrs [Some v] = Some [v]) ->
+  StagesProofs.rule_sound (list Z) sem truth trip of_nat of_bool limit (RuleBridge.one_rule RuleBridge.dropout_inference).
+Proof. exact RuleBridge.dropout_inference_rule_sound. Qed.
+Print Assumptions C03_rule_bridge_dropout_inference.
+
+Theorem C03_rule_bridge_mul_by_constant_one : forall sem truth trip of_nat of_bool limit,
+  (forall attrs v, sem "" "Identity" attrs [Some v] = Some [v]) ->
+  (forall c vs, sem "" "Constant" [("value_int", AInt c)] vs = Some [[c]]) ->
+  (forall attrs v c, sem "" "Mul" attrs [Some v; Some [c]] = Some [map (fun x => OV.Rules.NoOp.lhs_int OV.Rules.NoOp.MulR c x) v]) ->
+  StagesProofs.rule_sound (list Z) sem truth trip of_nat of_bool limit (RuleBridge.two_rule RuleBridge.mul_by_const_one).
+Proof. exact RuleBridge.mul_by_const_one_rule_sound. Qed.
+Print Assumptions C03_rule_bridge_mul_by_constant_one.
+
+(* NameFixPass as a stage = C07_namefix_sound *)
+Theorem C03_namefix_stage_sound : forall V sem truth trip of_nat of_bool limit tok_val rn vis f,
+  istage_sound V sem truth trip of_nat of_bool limit tok_val (StagesProofs.i_namefix rn vis f).
+Proof. exact StagesProofs.i_namefix_sound. Qed.
+Print Assumptions C03_namefix_stage_sound.
+
+(* OutputFixPass on the main graph, outputs listed again: each repeat gets  x_alias_i = Identity(x)  appended.  NOT modelled: a graph
+   input listed as an output (the real pass renames the input to x_orig and appends x = Identity(x_orig)), nested graphs, functions *)
+Theorem C03_output_fix_sound_partial : forall V sem truth trip of_nat of_bool limit,
+  (forall attrs v, sem "" "Identity" attrs [Some v] = Some [v]) ->
+  forall g g', Stages.output_fix g = Some g' -> forall F e args r,
+    (forall y, In y (g_outs g') -> ~ In y (g_outs g) -> lookup e y = None) ->
+    eval_graph V sem truth trip of_nat of_bool limit F e g args = Some r ->
+    eval_graph V sem truth trip of_nat of_bool limit F e g' args = Some r.
+Proof. exact StagesProofs.output_fix_sound. Qed.
+Print Assumptions C03_output_fix_sound_partial.
+
+(* RemoveUnusedFunctionsPass: whatever is still called (from the main graph or from a kept function) and was in the table, stays *)
+Theorem C03_remove_unused_functions_closed : forall g ft c,
+  In c (Stages.calls_graph g ++ flat_map (fun e => Stages.calls_graph (snd e)) (StagesProofs.remove_unused_functions_checked g ft)) ->
+  existsb (fun e => Stages.fid_eqb (fst e) c) ft = true ->
+  existsb (fun e => Stages.fid_eqb (fst e) c) (StagesProofs.remove_unused_functions_checked g ft) = true.
+Proof. exact StagesProofs.remove_unused_functions_closed. Qed.
+Print Assumptions C03_remove_unused_functions_closed.
+
+(* optimize_ir, every option tuple: the hypotheses left are the Constant / reference-evaluator / Identity oracles, pe_ok, rule_sound
+   per rewrite rule, and InlinePass *)
+Theorem C03_optimize_ir_sound : forall V sem truth trip of_nat of_bool limit tok_val ref_eval const_val attr_of_val v_dtype v_dims v_ints v_tensor pe rules inline_pass,
+  const_oracle V sem tok_val ->
+  oracles V sem truth ref_eval const_val attr_of_val v_dtype v_ints ->
+  pe_ok V sem truth trip of_nat of_bool limit pe ->
+  Forall (StagesProofs.rule_sound V sem truth trip of_nat of_bool limit) rules ->
+  istage_sound V sem truth trip of_nat of_bool limit tok_val inline_pass ->
+  forall cfg depth fuel rn vis f inline num_iterations stop_if_no_change,
+    istage_sound V sem truth trip of_nat of_bool limit tok_val
+      (OptimizeIrProofs.optimize_ir_linked V tok_val ref_eval const_val attr_of_val v_dtype v_dims v_ints v_tensor pe rules inline_pass
+         cfg depth fuel rn vis f inline num_iterations stop_if_no_change).
+Proof. exact OptimizeIrProofs.optimize_ir_linked_sound. Qed.
+Print Assumptions C03_optimize_ir_sound.
